@@ -219,6 +219,19 @@ def run(ctx):
                     viol.append((bname, impl.real_parse_ast(t), f"ok {sql[-160:]}", f"the filter's list has {len(items)} elements, the compiled IN list has {n}: an element is missing"))
                 else:
                     tally[f"{bname}:inlist:complete"] += 1
+    # literals the lexer accepts but that have no value (not a calendar date / time): a backend that binds VALUES has nothing to bind — it must refuse
+    # with a library exception, not hand on a placeholder; the SQL dialects, which copy the text, must still copy all of it
+    for lit, col in (("2020-02-30", "d1"), ("2021-02-29", "d1"), ("2020-04-31", "d1"), ("2020-02-30T10:00:00Z", "dt1"), ("2021-02-29T00:00:00Z", "dt1")):
+        for tmpl in ("{c} eq {l}", "{l} lt {c}", "{c} in ({l}, 2020-01-01)", "not ({c} ge {l})", "year({c}) eq 2020 and {c} ne {l}"):
+            t = tmpl.format(c=col, l=lit)
+            if col == "dt1":
+                t = t.replace("2020-01-01)", "2020-01-01T00:00:00Z)")
+            for bname, comp in (("django", lambda x: oc.dj_shorthand_sql(x)), ("sa-orm", lambda x: oc.sa_shorthand_sql(x, "orm")), ("sa-core", lambda x: oc.sa_shorthand_sql(x, "core"))):
+                out, sql, params = comp(t)
+                ctx.evaluations += 1
+                tally[f"{bname}:novalue:{' '.join(out.split(' ')[:2])}"] += 1
+                if not out.startswith("lib "):
+                    viol.append((bname, impl.real_parse_ast(t), (out + " " + str(sql)[-120:] + " " + str(params)[:80]), f"the literal {lit} has no value, yet the backend did not refuse with a library exception"))
     ctx.extra["judged"] = dict(sorted(tally.items()))
     ctx.note(f"judge C12 on real outcomes: {len(viol)} violations; classes: " + ", ".join(f"{k}={v}" for k, v in sorted(tally.items()) if "foreign" in k or "notimpl" in k or "env" in k))
     new = [(b, n, r, why) for (b, n, r, why) in viol if f"C12:{b}:{type(n).__name__}" not in known_sigs]
